@@ -103,6 +103,15 @@ def run(rep, tier, seed):
                 if problems:
                     rep.violation("C09/raw-error", f"{'other-platform branches (' + ', '.join(v for _, v, _ in flags) + ' flipped)' if flip else 'this platform'}, debug logging "
                                   f"{'on' if debug else 'off'}, messages of {size} bytes: {problems[0]}; {len(problems)} problem(s)", replay)
+    # ... and with the library imported as on Windows (whatever it derives from sys.platform at import time)
+    from vlib import otherplatform
+    for debug in (False, True):
+        problems = otherplatform.run_under("win32", "checks.c09", "platform_debug_probe", False, debug, 600)
+        replay = {"kind": "platform-debug", "flip": False, "debug": debug, "size": 600, "imported_as": "win32"}
+        rep.case(("platform-debug-import", debug), True, sample={"probe": replay, "problems": problems[:3]})
+        rep.bump("probe:platform-debug-import")
+        if problems:
+            rep.violation("C09/raw-error", f"library imported with sys.platform='win32', debug logging {'on' if debug else 'off'}, messages of 600 bytes: {problems[0]}; {len(problems)} problem(s)", replay)
     for host in ("living-room.local", "living-room", "printer.example.com"):
         for cancel_at in (None, 1.0, 12.0):
             elapsed, out = resolver_hang_probe(host, cancel_at)
@@ -512,7 +521,11 @@ def replay(path):
         return 0
     if d.get("kind") == "platform-debug":
         common.setup_impl_path()
-        problems = platform_debug_probe(d["flip"], d["debug"], d["size"])
+        if d.get("imported_as"):
+            from vlib import otherplatform
+            problems = otherplatform.run_under(d["imported_as"], "checks.c09", "platform_debug_probe", d["flip"], d["debug"], d["size"])
+        else:
+            problems = platform_debug_probe(d["flip"], d["debug"], d["size"])
         print(problems)
         return 1 if problems else 0
     if d.get("kind") == "resolver-hang":
